@@ -1,0 +1,249 @@
+//go:build verif
+// +build verif
+
+// Contracts for the deductive verifier in /verif (comment-only file: it adds no code).
+package varlink
+
+// ---- ghost state: calls observed on the interfaces the service talks to
+//@ ghost wcount int
+//@ ghost wlastErr string
+//@ ghost wlastCont bool
+//@ ghost wlastParams iface
+//@ ghost dcount int
+//@ ghost dlastIface iface
+//@ ghost dlastMethod string
+//@ ghost dlastResult iface
+//@ ghost gm bytes
+//@ ghost gDecErr iface
+//@ ghost gMethod string
+//@ ghost gOneway bool
+
+//@ pred lastDot(s) = lastIdx(s, ".")
+//@ pred callOK(c) = c != nil && c.In != nil && (!c.In.Oneway ==> c.Conn != nil)
+//@ pred wsame() = wcount == old(wcount) && wlastErr == old(wlastErr) && wlastCont == old(wlastCont) && wlastParams == old(wlastParams)
+//@ pred wrote1(c) = (c.In.Oneway ==> wcount == old(wcount)) && (wcount == old(wcount) || wcount == old(wcount) + 1) && (result == nil && !c.In.Oneway ==> wcount == old(wcount) + 1)
+
+//@ func (ReadWriterContext).Write(self, ctx, b)
+//@   modifies wcount
+//@   ensures wcount == old(wcount) + 1
+
+//@ func (dispatcher).VarlinkDispatch(self, ctx, c, methodname)
+//@   modifies wcount, wlastErr, wlastCont, wlastParams, dcount, dlastIface, dlastMethod, dlastResult, gm
+//@   ensures dcount == old(dcount) + 1 && dlastIface == self && dlastMethod == methodname && dlastResult == result && wcount >= old(wcount)
+
+//@ func (*Call).sendMessage {C01 C02 C04 C10 C12 | safety: C10}
+//@   requires [nn] callOK(c) && r != nil
+//@   modifies wcount, wlastErr, wlastCont, wlastParams, gm
+//@   ensures [wrote C01 C04 C10 C12] wrote1(c)
+//@   ensures [what C01 C04 C12] wcount == old(wcount) + 1 ==> wlastErr == r.Error && wlastCont == r.Continues && wlastParams == r.Parameters
+//@   ensures [unch C01 C04 C12] wcount == old(wcount) ==> wlastErr == old(wlastErr) && wlastCont == old(wlastCont) && wlastParams == old(wlastParams)
+//@   ghostset at call(Marshal)#1 : gm = res0
+//@   assert [marshal-arg C02] at call(Marshal)#1 : arg0 == box(ptr(serviceReply), r)
+//@   assert [frame C02] at call(Write)#1 : len(arg2) == len(gm) + 1 && arg2[len(arg2) - 1] == 0 && (forall i int :: 0 <= i && i < len(gm) ==> arg2[i] == gm[i])
+//@   assert [conn C01 C02] at call(Write)#1 : arg0 == c.Conn
+//@   ghostset at call(Write)#1 : wlastErr = r.Error
+//@   ghostset at call(Write)#1 : wlastCont = r.Continues
+//@   ghostset at call(Write)#1 : wlastParams = r.Parameters
+
+//@ func (*Call).Reply {C01 C03 C13 | safety: C10}
+//@   requires [nn] callOK(c)
+//@   modifies wcount, wlastErr, wlastCont, wlastParams, gm
+//@   ensures [refuse C01] c.Continues && !c.In.More ==> result != nil && wsame()
+//@   ensures [wrote C01 C13] wrote1(c) || (c.Continues && !c.In.More)
+//@   ensures [sent C01 C03 C13] wcount == old(wcount) + 1 ==> wlastErr == "" && wlastCont == c.Continues && wlastParams == parameters
+//@   ensures [unch C01] wcount == old(wcount) ==> wlastErr == old(wlastErr) && wlastCont == old(wlastCont) && wlastParams == old(wlastParams)
+
+//@ func (*Call).ReplyError {C12 | safety: C10}
+//@   requires [nn] callOK(c)
+//@   modifies wcount, wlastErr, wlastCont, wlastParams, gm
+//@   ensures [noiface C12] lastDot(name) <= 0 ==> result != nil && wsame()
+//@   ensures [reserved C12] lastDot(name) > 0 && name[0:lastDot(name)] == "org.varlink.service" ==> result != nil && wsame()
+//@   ensures [wrote C12] (lastDot(name) > 0 && name[0:lastDot(name)] != "org.varlink.service") ==> wrote1(c)
+//@   ensures [sent C12] wcount == old(wcount) + 1 ==> wlastErr == name && wlastCont == false && wlastParams == parameters
+//@   ensures [unch C12] wcount == old(wcount) ==> wlastErr == old(wlastErr) && wlastCont == old(wlastCont) && wlastParams == old(wlastParams)
+
+//@ func (*Call).GetParameters {C03 C13 | safety: C10}
+//@   requires [nn] c != nil && c.In != nil
+//@   modifies pointee(p)
+//@   ensures [nil C03] c.In.Parameters == nil ==> result != nil
+//@   assert [raw C03] at call(Unmarshal)#1 : arg0 == *c.In.Parameters && arg1 == p
+
+//@ func doReplyError {C01 C04 C10 C12 | safety: C10}
+//@   requires [nn] callOK(c)
+//@   modifies wcount, wlastErr, wlastCont, wlastParams, gm
+//@   ensures [wrote C01 C04 C10 C12] wrote1(c)
+//@   ensures [sent C04 C12] wcount == old(wcount) + 1 ==> wlastErr == name && wlastCont == false && wlastParams == parameters
+//@   ensures [unch C01 C04 C12] wcount == old(wcount) ==> wlastErr == old(wlastErr) && wlastCont == old(wlastCont) && wlastParams == old(wlastParams)
+
+//@ pred errParam(T, f, x) = typeof(wlastParams) == typeid(ptr(T))
+
+//@ func (*Call).ReplyInterfaceNotFound {C01 C04 C10 C12 | safety: C10}
+//@   requires [nn] callOK(c)
+//@   modifies wcount, wlastErr, wlastCont, wlastParams, gm
+//@   ensures [wrote C01 C04 C10 C12] wrote1(c)
+//@   ensures [sent C04 C12] wcount == old(wcount) + 1 ==> wlastErr == "org.varlink.service.InterfaceNotFound" && wlastCont == false && typeof(wlastParams) == typeid(ptr(InterfaceNotFound)) && unbox(ptr(InterfaceNotFound), wlastParams).Interface == interfaceA
+//@   ensures [unch C01 C04 C12] wcount == old(wcount) ==> wlastErr == old(wlastErr) && wlastCont == old(wlastCont) && wlastParams == old(wlastParams)
+
+//@ func (*Call).ReplyMethodNotFound {C01 C04 C10 C12 | safety: C10}
+//@   requires [nn] callOK(c)
+//@   modifies wcount, wlastErr, wlastCont, wlastParams, gm
+//@   ensures [wrote C01 C04 C10 C12] wrote1(c)
+//@   ensures [sent C04 C12] wcount == old(wcount) + 1 ==> wlastErr == "org.varlink.service.MethodNotFound" && wlastCont == false && typeof(wlastParams) == typeid(ptr(MethodNotFound)) && unbox(ptr(MethodNotFound), wlastParams).Method == method
+//@   ensures [unch C01 C04 C12] wcount == old(wcount) ==> wlastErr == old(wlastErr) && wlastCont == old(wlastCont) && wlastParams == old(wlastParams)
+
+//@ func (*Call).ReplyMethodNotImplemented {C01 C12 | safety: C10}
+//@   requires [nn] callOK(c)
+//@   modifies wcount, wlastErr, wlastCont, wlastParams, gm
+//@   ensures [wrote C01 C12] wrote1(c)
+//@   ensures [sent C12] wcount == old(wcount) + 1 ==> wlastErr == "org.varlink.service.MethodNotImplemented" && wlastCont == false && typeof(wlastParams) == typeid(ptr(MethodNotImplemented)) && unbox(ptr(MethodNotImplemented), wlastParams).Method == method
+//@   ensures [unch C01 C12] wcount == old(wcount) ==> wlastErr == old(wlastErr) && wlastCont == old(wlastCont) && wlastParams == old(wlastParams)
+
+//@ func (*Call).ReplyInvalidParameter {C01 C04 C10 C12 C13 | safety: C10}
+//@   requires [nn] callOK(c)
+//@   modifies wcount, wlastErr, wlastCont, wlastParams, gm
+//@   ensures [wrote C01 C04 C10 C12 C13] wrote1(c)
+//@   ensures [sent C04 C12 C13] wcount == old(wcount) + 1 ==> wlastErr == "org.varlink.service.InvalidParameter" && wlastCont == false && typeof(wlastParams) == typeid(ptr(InvalidParameter)) && unbox(ptr(InvalidParameter), wlastParams).Parameter == parameter
+//@   ensures [unch C01 C04 C12 C13] wcount == old(wcount) ==> wlastErr == old(wlastErr) && wlastCont == old(wlastCont) && wlastParams == old(wlastParams)
+
+// ---- service side: routing, built-in interface, connection loop
+
+//@ uf nameOf(iface) string
+//@ uf descOf(iface) string
+//@ ghost gidx [string]int
+//@ axiom [dispatch-builtin-name] forall x iface :: typeof(x) == typeid(ptr(orgvarlinkserviceInterface)) ==> nameOf(x) == "org.varlink.service"
+
+//@ func (dispatcher).VarlinkGetName(self)
+//@   opaque
+//@   ensures result == nameOf(self)
+//@ func (dispatcher).VarlinkGetDescription(self)
+//@   opaque
+//@   ensures result == descOf(self)
+
+//@ func (*orgvarlinkserviceInterface).VarlinkGetName {C13}
+//@   ensures [name C13] result == "org.varlink.service"
+
+//@ pred callOKv(c) = c.In != nil && (!c.In.Oneway ==> c.Conn != nil)
+//@ pred wrote1v(c) = (c.In.Oneway ==> wcount == old(wcount)) && (wcount == old(wcount) || wcount == old(wcount) + 1) && (result == nil && !c.In.Oneway ==> wcount == old(wcount) + 1)
+//@ pred unchW() = wcount == old(wcount) ==> wlastErr == old(wlastErr) && wlastCont == old(wlastCont) && wlastParams == old(wlastParams)
+//@ pred dispatchersNonNil(s) = forall k string :: has(s.interfaces, k) ==> s.interfaces[k] != nil
+
+//@ func (*Call).replyGetInfo {C01 C13 | safety: C10}
+//@   requires [nn] callOK(c)
+//@   modifies wcount, wlastErr, wlastCont, wlastParams, gm
+//@   ensures [wrote C01 C13] wrote1(c) || (c.Continues && !c.In.More)
+//@   ensures [sent C13] wcount == old(wcount) + 1 ==> wlastErr == "" && wlastCont == c.Continues
+//@   ensures [unch C01 C13] unchW()
+//@   assert [fields C13] at call(Reply)#1 : out.Vendor == vendor && out.Product == product && out.Version == version && out.URL == url && out.Interfaces == interfaces && arg2 == boxed(addr_out) && arg0 == c
+
+//@ func (*Call).replyGetInterfaceDescription {C01 C13 | safety: C10}
+//@   requires [nn] callOK(c)
+//@   modifies wcount, wlastErr, wlastCont, wlastParams, gm
+//@   ensures [wrote C01 C13] wrote1(c) || (c.Continues && !c.In.More)
+//@   ensures [sent C13] wcount == old(wcount) + 1 ==> wlastErr == "" && wlastCont == c.Continues
+//@   ensures [unch C01 C13] unchW()
+//@   assert [fields C13] at call(Reply)#1 : out.Description == description && arg2 == boxed(addr_out) && arg0 == c
+
+//@ func (*Service).getInfo {C01 C13 | safety: C10}
+//@   requires [nn] s != nil && callOKv(c)
+//@   modifies wcount, wlastErr, wlastCont, wlastParams, gm
+//@   ensures [wrote C01 C13] wrote1v(c) || (c.Continues && !c.In.More)
+//@   ensures [sent C13] wcount == old(wcount) + 1 ==> wlastErr == ""
+//@   ensures [unch C01 C13] unchW()
+//@   assert [fields C13] at call(replyGetInfo)#1 : arg2 == s.vendor && arg3 == s.product && arg4 == s.version && arg5 == s.url && arg6 == s.names
+
+//@ func (*Service).getInterfaceDescription {C01 C13 | safety: C10}
+//@   requires [nn] s != nil && callOKv(c)
+//@   modifies wcount, wlastErr, wlastCont, wlastParams, gm
+//@   ensures [wrote C01 C13] wrote1v(c) || (c.Continues && !c.In.More)
+//@   ensures [invalid C13] (name == "" || !has(s.descriptions, name)) ==> wrote1v(c) && (wcount == old(wcount) + 1 ==> wlastErr == "org.varlink.service.InvalidParameter" && typeof(wlastParams) == typeid(ptr(InvalidParameter)) && unbox(ptr(InvalidParameter), wlastParams).Parameter == "interface")
+//@   ensures [found C13] name != "" && has(s.descriptions, name) && wcount == old(wcount) + 1 ==> wlastErr == ""
+//@   ensures [unch C01 C13] unchW()
+//@   assert [desc C13] at call(replyGetInterfaceDescription)#1 : arg2 == s.descriptions[name] && name != "" && has(s.descriptions, name)
+
+//@ func (*Service).orgvarlinkserviceDispatch {C01 C04 C10 C13 | safety: C10}
+//@   requires [nn] s != nil && callOKv(c)
+//@   modifies wcount, wlastErr, wlastCont, wlastParams, gm
+//@   ensures [wrote C01 C04 C10] wrote1v(c) || (c.Continues && !c.In.More)
+//@   ensures [notfound C04] methodname != "GetInfo" && methodname != "GetInterfaceDescription" ==> wrote1v(c) && (wcount == old(wcount) + 1 ==> wlastErr == "org.varlink.service.MethodNotFound" && typeof(wlastParams) == typeid(ptr(MethodNotFound)) && unbox(ptr(MethodNotFound), wlastParams).Method == methodname)
+//@   ensures [getinfo C13] methodname == "GetInfo" && wcount == old(wcount) + 1 ==> wlastErr == ""
+//@   ensures [unch C01 C04] unchW()
+//@   assert [getinfo-call C13] at call(getInfo)#1 : methodname == "GetInfo"
+//@   assert [getdesc-call C13] at call(getInterfaceDescription)#1 : methodname == "GetInterfaceDescription" && arg3 == in.Interface
+//@   assert [getdesc-params C13] at call(GetParameters)#1 : arg1 == boxed(addr_in)
+
+//@ pred replied(ow) = (ow ==> wcount == old(wcount)) && (wcount == old(wcount) || wcount == old(wcount) + 1) && (result == nil && !ow ==> wcount == old(wcount) + 1)
+
+//@ func (*Service).HandleMessage {C01 C04 C10 | safety: C10}
+//@   requires [nn] s != nil && conn != nil && dispatchersNonNil(s)
+//@   modifies wcount, wlastErr, wlastCont, wlastParams, dcount, dlastIface, dlastMethod, dlastResult, gm, gDecErr, gMethod, gOneway
+//@   ghostset at call(Unmarshal)#1 : gDecErr = res0
+//@   ghostset at call(Unmarshal)#1 : gMethod = in.Method
+//@   ghostset at call(Unmarshal)#1 : gOneway = in.Oneway
+//@   assert [decode-arg C04 C10] at call(Unmarshal)#1 : arg0 == request && arg1 == boxed(addr_in)
+//@   ensures [undecodable C01 C04 C10] gDecErr != nil ==> result != nil && wsame() && dcount == old(dcount)
+//@   ensures [nomethod C04 C10] gDecErr == nil && lastDot(gMethod) <= 0 ==> dcount == old(dcount) && replied(gOneway) &&
+//@       (wcount == old(wcount) + 1 ==> wlastErr == "org.varlink.service.InvalidParameter" && typeof(wlastParams) == typeid(ptr(InvalidParameter)) && unbox(ptr(InvalidParameter), wlastParams).Parameter == "method")
+//@   ensures [builtin C04] gDecErr == nil && lastDot(gMethod) > 0 && gMethod[0:lastDot(gMethod)] == "org.varlink.service" ==> dcount == old(dcount) &&
+//@       (gMethod[lastDot(gMethod) + 1:len(gMethod)] != "GetInfo" && gMethod[lastDot(gMethod) + 1:len(gMethod)] != "GetInterfaceDescription" ==> replied(gOneway) &&
+//@          (wcount == old(wcount) + 1 ==> wlastErr == "org.varlink.service.MethodNotFound" && typeof(wlastParams) == typeid(ptr(MethodNotFound)) && unbox(ptr(MethodNotFound), wlastParams).Method == gMethod[lastDot(gMethod) + 1:len(gMethod)]))
+//@   ensures [unknown C04] gDecErr == nil && lastDot(gMethod) > 0 && gMethod[0:lastDot(gMethod)] != "org.varlink.service" && !has(s.interfaces, gMethod[0:lastDot(gMethod)]) ==> dcount == old(dcount) && replied(gOneway) &&
+//@       (wcount == old(wcount) + 1 ==> wlastErr == "org.varlink.service.InterfaceNotFound" && typeof(wlastParams) == typeid(ptr(InterfaceNotFound)) && unbox(ptr(InterfaceNotFound), wlastParams).Interface == gMethod[0:lastDot(gMethod)])
+//@   ensures [dispatch C01 C04] gDecErr == nil && lastDot(gMethod) > 0 && gMethod[0:lastDot(gMethod)] != "org.varlink.service" && has(s.interfaces, gMethod[0:lastDot(gMethod)]) ==>
+//@       dcount == old(dcount) + 1 && dlastIface == s.interfaces[gMethod[0:lastDot(gMethod)]] && dlastMethod == gMethod[lastDot(gMethod) + 1:len(gMethod)] && result == dlastResult
+//@   ensures [atmost1-dispatch C01 C04] dcount == old(dcount) || dcount == old(dcount) + 1
+//@   assert [call-conn C01 C03] at call(VarlinkDispatch)#1 : arg2.Conn == conn && arg2.In == addr_in && arg2.Continues == false
+
+// ---- registration and introspection tables (C13)
+
+//@ fieldrange Service.conncounter -4611686018427387904 4611686018427387904
+
+//@ pred wfS(s) = s != nil && s.interfaces != nil && s.descriptions != nil && dispatchersNonNil(s) &&
+//@     (forall k string :: has(s.interfaces, k) <==> has(s.descriptions, k)) &&
+//@     (forall i int :: 0 <= i && i < len(s.names) ==> has(s.interfaces, s.names[i]) && gidx[s.names[i]] == i) &&
+//@     (forall k string :: has(s.interfaces, k) ==> 0 <= gidx[k] && gidx[k] < len(s.names) && s.names[gidx[k]] == k)
+//@ pred tablesUnchanged(s) = s.names == old(s.names) && mapunchanged(s.interfaces) && mapunchanged(s.descriptions) && s.interfaces == old(s.interfaces) && s.descriptions == old(s.descriptions)
+
+//@ func orgvarlinkserviceNew {C13}
+//@   ensures [nn C13] result != nil && fresh(result)
+
+//@ func (*Service).RegisterInterface {C13 C16 | safety: C10}
+//@   requires [wfS] wfS(s) && iface != nil
+//@   modifies s.names, mapof(s.interfaces), mapof(s.descriptions), gidx
+//@   ghostset at call(append)#1 : gidx = upd(gidx, name, len(res0) - 1)
+//@   ensures [wfS C13] wfS(s)
+//@   ensures [dup C13] old(has(s.interfaces, nameOf(iface))) ==> result != nil && tablesUnchanged(s)
+//@   ensures [running C13] old(s.running) ==> result != nil && tablesUnchanged(s)
+//@   ensures [ok C13] !old(has(s.interfaces, nameOf(iface))) && !old(s.running) ==> result == nil &&
+//@       len(s.names) == old(len(s.names)) + 1 && s.names[len(s.names) - 1] == nameOf(iface) &&
+//@       (forall i int :: 0 <= i && i < old(len(s.names)) ==> s.names[i] == old(s.names)[i]) &&
+//@       s.interfaces[nameOf(iface)] == iface && s.descriptions[nameOf(iface)] == descOf(iface) &&
+//@       (forall k string :: k != nameOf(iface) ==> has(s.interfaces, k) == old(has(s.interfaces, k)) && s.interfaces[k] == old(s.interfaces[k]) && s.descriptions[k] == old(s.descriptions[k]))
+
+//@ func NewService {C13 | safety: C10}
+//@   modifies gidx
+//@   ensures [wfS C13] result0 != nil && fresh(result0) && wfS(result0)
+//@   ensures [ident C13] result0.vendor == vendor && result0.product == product && result0.version == version && result0.url == url
+//@   ensures [first C13] result1 == nil && len(result0.names) == 1 && result0.names[0] == "org.varlink.service" && !result0.running
+
+// ---- per-connection loop (C01 C02 C10 C14)
+
+//@ ghost gNewConn int
+
+//@ func (*Service).handleConnection$1 {C10 C14 C15 | safety: C10}
+//@   requires [nn] *s != nil && *wg != nil && !held[*s]
+//@   modifies (*s).conncounter, held, wgDones
+//@   ensures [released C10 C14 C15] (*s).conncounter == old((*s).conncounter) - 1 && wgDones[*wg] == old(wgDones)[*wg] + 1 && !held[*s]
+//@   ensures [frame C10 C14] forall r ref :: r != *s ==> held[r] == old(held)[r]
+
+//@ func (*Service).handleConnection {C01 C02 C10 C14 C15 | safety: C10}
+//@   requires [nn] s != nil && conn != nil && wg != nil && dispatchersNonNil(s) && !held[s]
+//@   modifies s.conncounter, held, wgDones, closed, gNewConn, wcount, wlastErr, wlastCont, wlastParams, dcount, dlastIface, dlastMethod, dlastResult, gm, gDecErr, gMethod, gOneway
+//@   ghostset at call(NewConn)#1 : gNewConn = gNewConn + 1
+//@   ensures [onereader C02] gNewConn == old(gNewConn) + 1
+//@   ensures [closed C10 C14] closed[conn]
+//@   ensures [released C10 C14 C15] s.conncounter == old(s.conncounter) - 1 && wgDones[wg] == old(wgDones)[wg] + 1 && !held[s]
+//@   assert [strip C01 C02 C10] at call(HandleMessage)#1 : err == nil && len(request) >= 1 && request[len(request) - 1] == 0 && arg3 == request[0:len(request) - 1] && arg2 == boxed(ctxConn) && arg0 == s
+//@   assert [reader C02] at call(ReadBytes)#1 : arg0 == ctxConn && arg2 == 0
+//@   assert [close C10] at call(Close)#1 : arg0 == conn
+//@   loop 1 invariant [reader C02] ctxConn != nil && gNewConn == old(gNewConn) + 1 && !held[s]
+//@   loop 1 decreases *
